@@ -26,6 +26,9 @@ SflIdx(sym) == CASE sym = "SFL2_0" -> 0 [] sym = "SFL2_1" -> 1 [] sym = "SFL2_2"
                  [] sym = "SFL3_1" -> 1 [] sym = "SFL3_2" -> 2 [] sym = "SFL3_3" -> 3 [] sym = "SFL3_4" -> 4 [] OTHER -> -1
 IsSfl2(sym) == sym \in {"SFL2_0", "SFL2_1", "SFL2_2", "SFL2_3", "SFL2_4"}
 IsSfl3(sym) == sym \in {"SFL3_1", "SFL3_2", "SFL3_3", "SFL3_4"}
+\* A6 holds no position at all: its end instruction is sent without any bank / price accounts
+IsSfl6(sym) == sym \in {"SFL6_1", "SFL6_2", "SFL6_3"}
+Sfl6Idx(sym) == CASE sym = "SFL6_1" -> 1 [] sym = "SFL6_2" -> 2 [] sym = "SFL6_3" -> 3
 \* end-index arguments far beyond any transaction (the argument is a u64): 2^16 + k, 2^32 + k, 2^64 - 1
 IsSflW(sym) == sym \in {"SFLW_65536", "SFLW_65537", "SFLW_65538", "SFLW_4294967297", "SFLW_MAX"}
 SflWide(sym) == CASE sym = "SFLW_65536" -> "65536" [] sym = "SFLW_65537" -> "65537" [] sym = "SFLW_65538" -> "65538"
@@ -63,6 +66,8 @@ Act(sym) ==
     [] IsSflW(sym) -> [op |-> "start_fl", acct |-> "A2", end_index |-> 0, end_index_wide |-> SflWide(sym)]
     [] sym = "EFL2" -> [op |-> "end_fl", acct |-> "A2"]
     [] sym = "EFL3" -> [op |-> "end_fl", acct |-> "A3"]
+    [] IsSfl6(sym) -> [op |-> "start_fl", acct |-> "A6", end_index |-> Sfl6Idx(sym)]
+    [] sym = "EFL6" -> [op |-> "end_fl", acct |-> "A6"]
     [] sym = "EFL1" -> [op |-> "end_fl", acct |-> "A1"]
     [] sym = "EFL1X2" -> [op |-> "end_fl", acct |-> "A1", extra_rem |-> <<"A2">>]    \* another account's end that merely mentions A2
     [] sym = "CSFL2" -> [op |-> "start_fl", acct |-> "A2", end_index |-> 2, cpi |-> TRUE]
@@ -98,7 +103,7 @@ ValidateStart(L, i) ==
   /\ i < Len(L)
 
 \* ---- sequential simulation of one transaction ----------------------------------------------------
-S0 == [ok |-> TRUE, recv |-> {}, fl2 |-> FALSE, fl3 |-> FALSE, nW |-> [a \in RecvAccts |-> 0], nR |-> [a \in RecvAccts |-> 0],
+S0 == [ok |-> TRUE, recv |-> {}, fl2 |-> FALSE, fl3 |-> FALSE, fl6 |-> FALSE, nW |-> [a \in RecvAccts |-> 0], nR |-> [a \in RecvAccts |-> 0],
        big2 |-> FALSE, debt2 |-> TRUE, healthy3 |-> FALSE, rec6 |-> FALSE]
 Fail(s) == [s EXCEPT !.ok = FALSE]
 Step(L, i, s) ==
@@ -122,6 +127,9 @@ Step(L, i, s) ==
                       IF idx > i /\ idx <= Len(L) /\ (idx <= Len(L) => L[idx] = "EFL2") /\ ~s.fl2 THEN [s EXCEPT !.fl2 = TRUE] ELSE Fail(s)
     [] IsSfl3(sym) -> LET idx == SflIdx(sym) + 1 IN
                       IF idx > i /\ idx <= Len(L) /\ (idx <= Len(L) => L[idx] = "EFL3") /\ ~s.fl3 /\ "A3" \notin s.recv THEN [s EXCEPT !.fl3 = TRUE] ELSE Fail(s)
+    [] IsSfl6(sym) -> LET idx == Sfl6Idx(sym) + 1 IN
+                      IF idx > i /\ idx <= Len(L) /\ (idx <= Len(L) => L[idx] = "EFL6") /\ ~s.fl6 THEN [s EXCEPT !.fl6 = TRUE] ELSE Fail(s)
+    [] sym = "EFL6" -> [s EXCEPT !.fl6 = FALSE]                   \* an account without positions is healthy
     [] sym = "EFL2" -> IF s.big2 THEN Fail(s) ELSE [s EXCEPT !.fl2 = FALSE]
     [] sym = "EFL3" -> IF s.healthy3 /\ "A3" \notin s.recv THEN [s EXCEPT !.fl3 = FALSE] ELSE Fail(s)
     [] sym = "BIGB2" -> IF s.fl2 /\ ~s.big2 THEN [s EXCEPT !.big2 = TRUE, !.debt2 = TRUE] ELSE Fail(s)
